@@ -17,12 +17,12 @@ META = {
     "engine": "E3: bounded-exhaustive enumeration of TaskiqScheduler.on_ready cases + explicit-state BFS over firing orders of the real LabelScheduleSource, against reference models",
     "rule": (
         "(A) TaskiqScheduler.on_ready for every schedule over args x kwargs x labels alphabets x {cron, time} x source "
-        "callbacks {inherited defaults, sync, async} x pre_send {passes, raises ScheduledTaskCancelledError} x kick {ok, "
+        "callbacks {inherited defaults, sync, async, plain functions returning a Task} x pre_send {passes, raises ScheduledTaskCancelledError} x kick {ok, "
         "raises}: callbacks are pre_send -> kick -> post_send, or pre_send only when cancelled; a failed kick raises and "
         "skips post_send; the kicked bytes decode to (task name, args, kwargs, labels + schedule_id) with label types "
         "preserved. (B) LabelScheduleSource: every task set of <= 2 own-broker tasks + 1 foreign-broker (shared) task, each "
         "with a schedule list of <= 3 entries over {cron, time T1, time T2, entry without cron/time, cron entry with "
-        "labels/args, time T1 with args}; BFS over every order of firing the listed one-shot entries; state = all schedule "
+        "labels/args, time T1 with args, time T2 with a dataclass and a pydantic model as arguments}; BFS over every order of firing the listed one-shot entries; state = all schedule "
         "lists. Reference: listing = declared entries having cron or time on own-broker tasks, in order, with the entry's "
         "payload; firing a one-shot removes the first entry of that task with that time and nothing else; firing a cron entry "
         "removes nothing. states/transitions are those of the BFS in (B) plus one state per on_ready case in (A)."
@@ -43,6 +43,7 @@ ENTRY_ALPHA: Dict[str, Dict[str, Any]] = {
     "none": {"args": [9]},
     "cronL": {"cron": "0 0 * * *", "labels": {"el": "x"}, "args": [1], "kwargs": {"k": 2}, "cron_offset": "Europe/Berlin"},
     "t1A": {"time": T1, "args": [5], "labels": {"el": 1}},
+    "t2D": {"time": T2, "args": ["@dataclass"], "kwargs": {"m": "@model"}},  # declared with a dataclass / pydantic model argument
 }
 
 
@@ -50,7 +51,7 @@ ENTRY_ALPHA: Dict[str, Dict[str, Any]] = {
 
 def on_ready_cases() -> List[Tuple[Any, ...]]:
     return list(itertools.product(range(len(ARGS)), range(len(KWARGS)), range(len(LABELS)), ("cron", "time"),
-                                  ("default", "sync", "async"), ("pass", "cancel"), ("ok", "raise")))
+                                  ("default", "sync", "async", "future"), ("pass", "cancel"), ("ok", "raise")))
 
 
 def run_on_ready(cases: List[Tuple[Any, ...]], acc: Acc) -> None:
@@ -91,6 +92,30 @@ def run_on_ready(cases: List[Tuple[Any, ...]], acc: Acc) -> None:
 
                 def post_send(self, task: Any) -> None:
                     log.append(("post_send", task.schedule_id))
+        elif cb == "future":
+            import asyncio
+
+            class Src(ScheduleSource):  # type: ignore[no-redef]
+                """plain functions returning a Task (an awaitable that is not a coroutine)"""
+
+                async def get_schedules(self) -> List[Any]:
+                    return []
+
+                def pre_send(self, task: Any) -> Any:
+                    async def body() -> None:
+                        await asyncio.sleep(0)
+                        log.append(("pre_send", task.schedule_id))
+                        if pre == "cancel":
+                            raise ScheduledTaskCancelledError()
+
+                    return asyncio.ensure_future(body())
+
+                def post_send(self, task: Any) -> Any:
+                    async def body() -> None:
+                        await asyncio.sleep(0)
+                        log.append(("post_send", task.schedule_id))
+
+                    return asyncio.ensure_future(body())
         else:
             class Src(ScheduleSource):  # type: ignore[no-redef]
                 async def get_schedules(self) -> List[Any]:
@@ -176,8 +201,23 @@ def task_sets(tier: str) -> List[Tuple[Tuple[str, ...], ...]]:
     return out
 
 
+@__import__("dataclasses").dataclass
+class _ArgDC:
+    a: int = 1
+    b: str = "x"
+
+
+class _ArgModel(__import__("pydantic").BaseModel):
+    n: int = 2
+
+
 def _entries(names: Tuple[str, ...]) -> List[Dict[str, Any]]:
-    return [copy.deepcopy(ENTRY_ALPHA[n]) for n in names]
+    out = [copy.deepcopy(ENTRY_ALPHA[n]) for n in names]
+    for e in out:
+        if e.get("args") == ["@dataclass"]:
+            e["args"] = [_ArgDC()]
+            e["kwargs"] = {"m": _ArgModel()}
+    return out
 
 
 def run_label_source(sets: List[Tuple[Tuple[str, ...], ...]], acc: Acc) -> None:
